@@ -162,6 +162,20 @@ func Parse(src []byte, ver string, cb bool) ParseResult {
 	return r
 }
 
+// ParseWith is Parse with a caller-owned Version value (shared between calls by the caller).
+func ParseWith(src []byte, v *version.Version, cb bool) ParseResult {
+	var r ParseResult
+	cfg := conf.Config{Version: v}
+	if cb {
+		cfg.ErrorHandlerFunc = func(e *errors.Error) { r.Errors = append(r.Errors, e) }
+	}
+	r.Panic = Try(func() { r.Root, r.Err = parser.Parse(src, cfg) })
+	if IsNil(r.Root) {
+		r.Root = nil
+	}
+	return r
+}
+
 // Fam returns 5 or 7 for a version string ("" means 7.4).
 func Fam(ver string) int {
 	if strings.HasPrefix(ver, "5.") {
